@@ -53,7 +53,9 @@ func capitalise(s string) string { return strings.ToUpper(s[:1]) + s[1:] }
 //
 // Returns the type and, per CQL name, the index of the struct field that stands for it (documented rule: a tagged field matches by its tag
 // only, an untagged one by its name, case-insensitively).
-func (g *gen) structLayout(names []string, fts []reflect.Type, mode int, extra, dup bool) (reflect.Type, []int, []string) {
+func (g *gen) structLayout(names []string, fts []reflect.Type, mode int, extra, dup, mapKeys bool) (reflect.Type, []int, []string) {
+	// a struct used as a CQL MAP writes the key of an untagged field as its lower-cased Go name: only a tag can stand for a key with upper-case letters
+	untaggedOK := func(i int) bool { return !mapKeys || names[i] == strings.ToLower(names[i]) }
 	n := len(names)
 	var sf []reflect.StructField
 	fidx := make([]int, n)
@@ -71,7 +73,7 @@ func (g *gen) structLayout(names []string, fts []reflect.Type, mode int, extra, 
 		for i := n - 1; i >= 0; i-- {
 			fidx[i] = len(sf)
 			f := reflect.StructField{Type: fts[i], Name: fmt.Sprintf("Fld_%d", i), Tag: tagOf(names[i])}
-			if g.pick(2) == 0 {
+			if g.pick(2) == 0 && untaggedOK(i) {
 				f = reflect.StructField{Type: fts[i], Name: capitalise(names[i])}
 			}
 			sf = append(sf, f)
@@ -86,7 +88,7 @@ func (g *gen) structLayout(names []string, fts []reflect.Type, mode int, extra, 
 		for i := 0; i < n; i++ {
 			fidx[i] = i
 			f := reflect.StructField{Type: fts[i], Name: fmt.Sprintf("Fld_%d", i), Tag: tagOf(names[i])}
-			if g.pick(2) == 0 {
+			if g.pick(2) == 0 && untaggedOK(i) {
 				f = reflect.StructField{Type: fts[i], Name: capitalise(names[i])}
 			}
 			sf = append(sf, f)
@@ -404,7 +406,7 @@ const tsLayout = "2006-01-02T15:04:05.999999999-07:00" // datacodec.TimestampLay
 
 var tsLo, tsHi = time.Date(1, 1, 2, 0, 0, 0, 0, time.UTC).UnixMilli(), time.Date(9999, 12, 30, 0, 0, 0, 0, time.UTC).UnixMilli()
 
-var identRe = regexp.MustCompile(`^[a-z][a-z0-9]{0,5}$`)
+var identRe = regexp.MustCompile(`^[A-Za-z][A-Za-z0-9]{0,5}$`)
 
 func nonNull(vals []*aval) []*aval {
 	var r []*aval
@@ -426,7 +428,7 @@ func (g *gen) planStructMap(t *ctype, ks, vs []*aval, mode int) *rep {
 		r.fields = append(r.fields, fr)
 		names[i], fts[i] = string(k.bs), fr.gt
 	}
-	r.gt, r.fidx, r.fnames = g.structLayout(names, fts, mode, false, false)
+	r.gt, r.fidx, r.fnames = g.structLayout(names, fts, mode, false, false, true)
 	return r
 }
 
@@ -560,11 +562,11 @@ func (g *gen) plan(t *ctype, vals []*aval, needComparable bool, preferred bool) 
 			okKeys := true
 			seen := map[string]bool{}
 			for _, k := range ks {
-				if k.kind != "bytes" || !identRe.Match(k.bs) || seen[string(k.bs)] {
+				if k.kind != "bytes" || !identRe.Match(k.bs) || seen[strings.ToLower(string(k.bs))] {
 					okKeys = false
 				}
 				if k.kind == "bytes" {
-					seen[string(k.bs)] = true
+					seen[strings.ToLower(string(k.bs))] = true // Go field names derived from the keys must differ, also case-insensitively
 				}
 			}
 			if okKeys {
@@ -598,7 +600,7 @@ func (g *gen) plan(t *ctype, vals []*aval, needComparable bool, preferred bool) 
 				fts[i] = fr.gt
 			}
 			if t.kind == "udt" {
-				r.gt, r.fidx, r.fnames = g.structLayout(t.names, fts, g.pick(3), true, g.pick(2) == 0)
+				r.gt, r.fidx, r.fnames = g.structLayout(t.names, fts, g.pick(3), true, g.pick(2) == 0, false)
 			} else {
 				r.gt = structOf(fts, nil) // tuples: fields by position
 			}
